@@ -230,6 +230,36 @@ def conformance_canary(chk, spec='MC_Core2', cfg='MC_Core2_deviant.cfg', names=(
                                            differing_fields=c['fields'])
 
 
+def stage_copyload_graph(chk, limit):
+    """S1 + S2 for the two-manager model: model-check MC_CopyLoad (quick
+    configuration), dump its graph, replay its paths into two real managers
+    through real pickle / JSON files, compare both managers' tables with the
+    model state after every action; the transfers are recorded for TraceXfer."""
+    from harness.drivers import xfer
+    dot = os.path.join(chk.dir, 'copyload.dot')
+    chk.mc('MC_CopyLoad', 'MC_CopyLoad.cfg', extra=['-dump', 'dot', dot], timeout=5000)
+    tmp = os.path.join(chk.dir, 'tmp')
+    tasks = [dict(shard=chk.shard('clg_%d' % i), dot=dot, part=i, nparts=tlcrun.NCPU, limit=limit,
+                  seed=chk.seed, first_tid=16000000 + i * 10000, tmpdir=tmp)
+             for i in range(tlcrun.NCPU)]
+    shards, res = chk.generate(xfer.copyload_graph_task, tasks)
+    os.remove(dot)
+    conf = dict(steps=0, equal=0, fields={}, first=None)
+    for r in res:
+        c = r['conformance']
+        conf['steps'] += c['steps']
+        conf['equal'] += c['equal']
+        for k, v in c['fields'].items():
+            conf['fields'][k] = conf['fields'].get(k, 0) + v
+        if conf['first'] is None and c['first']:
+            conf['first'] = c['first']
+    chk.mc_runs[-1]['state_conformance'] = conf
+    chk.mc_runs[-1]['states_by_action'] = res[0]['kinds']
+    chk.extra['model_paths_replayed'] = chk.extra.get('model_paths_replayed', 0) + sum(r['traces'] for r in res)
+    chk.log(f'state conformance MC_CopyLoad: {conf["equal"]}/{conf["steps"]}; differing fields {conf["fields"]}')
+    return [s for s in shards if os.path.getsize(s) > 0]
+
+
 # ---------------- canaries ----------------
 def _find_event(tr, pred):
     for i, ev in enumerate(tr['events']):
